@@ -1,3 +1,68 @@
 import TTModel.Proto
-/-! C14 driver — stub (not built yet): answers `bad-op` to everything. -/
-def main : IO Unit := TT.Proto.mainLoop fun _ => "bad-op"
+import TTModel.C14_Objectives
+import TTModel.C14_Protocol
+import TTGen.C11_Wiring
+/-!
+C14 driver: the objective estimators at `Float`.  Floats as 16-hex-digit bit patterns.
+  elbo  <w>*                  elbom <S> <K> <w>*(row-major)
+  vr1 <a> <w>*                vr <a> <S> <K> <w>*        vrsum <a> <S> <K> <w>*
+  cubo <n> <w>*
+  klpq <w>*                   klpq2 <S> <K> <w>*         klpq2b <S> <K> <w>*
+  entropy <S> <logp>*S <h>*
+  proto <0|1 guarded> <r|n>*  -> draw index answering each request
+  guarded <Class>             -> 1 if the generated row has a flag guard in __call__
+-/
+open TT TT.C14 TT.Proto
+
+def floats (ws : List String) : Option (List Float) := ws.mapM parseFloatBits
+
+def rows (S K : Nat) (l : List Float) : Option (List (List Float)) :=
+  if l.length ≠ S * K then none else
+  some ((List.range S).map fun s => (l.drop (s * K)).take K)
+
+def out (x : Float) : String := floatBits x
+
+def handle (line : String) : String :=
+  match splitWords line with
+  | "elbo" :: ws => match floats ws with | some w => out (elbo w) | none => "bad-op"
+  | "elbom" :: s :: k :: ws =>
+    match s.toNat?, k.toNat?, floats ws with
+    | some S, some K, some l => match rows S K l with | some w => out (elboMulti w) | none => "bad-op"
+    | _, _, _ => "bad-op"
+  | "vr1" :: a :: ws => match parseFloatBits a, floats ws with
+    | some a, some w => out (vr1 a w) | _, _ => "bad-op"
+  | "vr" :: a :: s :: k :: ws =>
+    match parseFloatBits a, s.toNat?, k.toNat?, floats ws with
+    | some a, some S, some K, some l => match rows S K l with | some w => out (vr a w) | none => "bad-op"
+    | _, _, _, _ => "bad-op"
+  | "vrsum" :: a :: s :: k :: ws =>
+    match parseFloatBits a, s.toNat?, k.toNat?, floats ws with
+    | some a, some S, some K, some l => match rows S K l with | some w => out (vrSum a w) | none => "bad-op"
+    | _, _, _, _ => "bad-op"
+  | "cubo" :: n :: ws => match parseFloatBits n, floats ws with
+    | some n, some w => out (cubo n w) | _, _ => "bad-op"
+  | "klpq" :: ws => match floats ws with | some w => out (klpq w) | none => "bad-op"
+  | "klpq2" :: s :: k :: ws =>
+    match s.toNat?, k.toNat?, floats ws with
+    | some S, some K, some l => match rows S K l with | some w => out (klpq2 w) | none => "bad-op"
+    | _, _, _ => "bad-op"
+  | "klpq2b" :: s :: k :: ws =>
+    match s.toNat?, k.toNat?, floats ws with
+    | some S, some K, some l => match rows S K l with | some w => out (klpq2Broadcast w) | none => "bad-op"
+    | _, _, _ => "bad-op"
+  | "entropy" :: s :: ws =>
+    match s.toNat?, floats ws with
+    | some S, some l => if l.length < S then "bad-op" else out (elboEntropy (l.take S) (l.drop S))
+    | _, _ => "bad-op"
+  | "proto" :: g :: evs =>
+    let ev? := evs.mapM fun e => if e = "r" then some Ev.request else if e = "n" then some Ev.notify else none
+    match g, ev? with
+    | "0", some es => " ".intercalate ((runObj false initObj es).map toString)
+    | "1", some es => " ".intercalate ((runObj true initObj es).map toString)
+    | _, _ => "bad-op"
+  | ["guarded", n] =>
+    let c := TTGen.C11_Wiring.find n
+    if c.name != n then "bad-op" else if c.guards.any (fun g => g.impl == "__call__") then "1" else "0"
+  | _ => "bad-op"
+
+def main : IO Unit := mainLoop handle
